@@ -100,6 +100,32 @@ WHandshake(w) == DoFlush(DoWrite(w, 2, HsLen))
 WAfterHandshake(enc, ver) == WHandshake(WNegotiated(WNonce(ver), enc, ver))
 
 ---------------------------------------------------------------------------
+(* Nonce negotiation (prepareNonceClient / prepareNonceServer and the      *)
+(* client's reading of the answer).  requireX = forceEncryption of X or    *)
+(* the peer is neither on the same machine nor in a trusted subnet group   *)
+(* of X; keyRel = how the server's keys relate to the client's key:        *)
+(* "none" (server has none), "same", "other" (different key id),           *)
+(* "prefix" (same 4-byte id, different tail).                              *)
+
+ClientSchema(hasKey, requireC) ==
+  IF requireC THEN (IF hasKey THEN "aes" ELSE "error")      \* "encryption is required, but client has empty encryption key"
+  ELSE IF hasKey THEN "noneOrAes" ELSE "none"
+
+KeyFound(hasKey, keyRel) == hasKey /\ keyRel \in {"same", "prefix"}
+
+ServerAnswer(cs, requireS, hasKey, keyRel) ==
+  IF cs # "aes" /\ ~requireS THEN "none"
+  ELSE IF cs = "none" THEN "error"                            \* refusing to set up an unencrypted connection
+  ELSE IF KeyFound(hasKey, keyRel) THEN "aes" ELSE "error"    \* no server key with the client's key id
+
+NegoOutcome(hasKey, requireC, requireS, keyRel) ==
+  IF ClientSchema(hasKey, requireC) = "error" THEN "client_refuses"
+  ELSE IF ServerAnswer(ClientSchema(hasKey, requireC), requireS, hasKey, keyRel) = "error" THEN "server_refuses"
+  ELSE IF ServerAnswer(ClientSchema(hasKey, requireC), requireS, hasKey, keyRel) = "none" THEN "plain"
+  ELSE IF keyRel = "same" THEN "aes"
+  ELSE "key_mismatch"             \* AES agreed on different keys: the encrypted handshake packet is refused
+
+---------------------------------------------------------------------------
 (* Channel: what a single corrupted byte does to the plaintext the reader  *)
 (* sees.  cr = [pos, mask], pos = 0: no corruption.  Result: garbled       *)
 (* interval g1..g2 (empty when g1 > g2), flipped position f (0: none).     *)
@@ -117,136 +143,153 @@ FirstAffected(af) == IF af.g1 <= af.g2 THEN af.g1 ELSE af.f     \* 0 when nothin
 (* ciphertext needed to see plaintext up to `need`: whole blocks *)
 CNeed(w, need) ==
   IF InEnc(w, need) THEN w.encFrom + ((need - w.encFrom + Block - 1) \div Block) * Block ELSE need
-(* end of the chunk that contains stream byte c *)
+(* chunking: a cut after every `every` bytes (0: none) and after each position in `at`;
+   end of the chunk that contains stream byte c *)
+NoCuts == [every |-> 0, at |-> {}]
+MinOf(S) == CHOOSE x \in S : \A y \in S : x <= y
 CEnd(cuts, c, n) ==
-  LET s == {x \in cuts : x >= c /\ x < n} IN
-  IF s = {} THEN n ELSE CHOOSE x \in s : \A y \in s : x <= y
+  MinOf({n} \cup {x \in cuts.at : x >= c /\ x < n}
+            \cup (IF cuts.every > 0 /\ ((c + cuts.every - 1) \div cuts.every) * cuts.every < n
+                  THEN {((c + cuts.every - 1) \div cuts.every) * cuts.every} ELSE {}))
 
 ---------------------------------------------------------------------------
 (* Reader.  cx = [out, n, sent, af] is what is on the wire; r = [pos, seq, *)
-(* ver, enc] the reader: pos = bytes consumed.  Byte values as the reader  *)
-(* sees them: 0..255 concrete, -1 opaque and unchanged, -2 garbled,        *)
-(* -3 opaque and flipped.                                                  *)
+(* ver, enc, sj, sb] the reader: pos = bytes consumed, <<sj, sb>> a cursor *)
+(* (segment sj starts at offset sb and is the one holding byte pos + 1).   *)
+(* Byte values as the reader sees them: 0..255 concrete, -1 opaque and     *)
+(* unchanged, -2 garbled, -3 opaque and flipped.                           *)
+(* Style note: shared intermediate values are passed as operator arguments *)
+(* (TLC evaluates an argument once) instead of LET (re-evaluated per use). *)
 
-RECURSIVE CellWalk(_, _, _, _)
-CellWalk(out, j, base, p) ==
-  IF j > Len(out) THEN <<"none", 0, 0>>
-  ELSE IF p <= base + out[j][3] THEN <<out[j][1], out[j][2], p - base - 1>>
-  ELSE CellWalk(out, j + 1, base + out[j][3], p)
-CellAt(cx, p) == CellWalk(cx.out, 1, 0, p)         \* <<kind, packet, index in segment>>
+RECURSIVE Seek(_, _, _, _)
+Seek(out, j, base, p) ==      \* cursor of the segment holding byte p, searching forward from <<j, base>>
+  IF j > Len(out) THEN <<j, base>>
+  ELSE IF p <= base + out[j][3] THEN <<j, base>>
+  ELSE Seek(out, j + 1, base + out[j][3], p)
 
+CellOf(out, cu, p) ==          \* <<kind, packet, index in segment, segment length>>
+  IF cu[1] > Len(out) THEN <<"none", 0, 0, 0>>
+  ELSE <<out[cu[1]][1], out[cu[1]][2], p - cu[2] - 1, out[cu[1]][3]>>
+CellFrom(out, cu, p) == CellOf(out, Seek(out, cu[1], cu[2], p), p)
+
+OrigWord(cx, c) ==
+  CASE c[1] = "len"  -> LE4(Overhead + cx.sent[c[2]].len)
+    [] c[1] = "seq"  -> SeqBytes(cx.sent[c[2]].seq)
+    [] c[1] = "type" -> cx.sent[c[2]].tp
+    [] OTHER         -> PadWord
 OrigByte(cx, c) ==
-  CASE c[1] = "len"   -> LE4(Overhead + cx.sent[c[2]].len)[c[3] + 1]
-    [] c[1] = "seq"   -> SeqBytes(cx.sent[c[2]].seq)[c[3] + 1]
-    [] c[1] = "type"  -> cx.sent[c[2]].tp[c[3] + 1]
+  CASE c[1] \in {"len", "seq", "type"} -> OrigWord(cx, c)[c[3] + 1]
     [] c[1] = "pad"   -> IF c[3] % 4 = 0 THEN 4 ELSE 0
     [] c[1] = "align" -> 0
     [] OTHER          -> -1
 
-ByteAt(cx, p) ==
-  IF cx.af.g1 <= p /\ p <= cx.af.g2 THEN -2
-  ELSE LET v == OrigByte(cx, CellAt(cx, p)) IN
-       IF p = cx.af.f THEN (IF v >= 0 THEN v ^^ cx.af.m ELSE -3) ELSE v
+Flip(cx, v, p) == IF p = cx.af.f THEN (IF v >= 0 THEN v ^^ cx.af.m ELSE -3) ELSE v
+ByteFrom(cx, cu, p) ==
+  IF cx.af.g1 <= p /\ p <= cx.af.g2 THEN -2 ELSE Flip(cx, OrigByte(cx, CellFrom(cx.out, cu, p)), p)
 
-WordAt(cx, o) == <<ByteAt(cx, o + 1), ByteAt(cx, o + 2), ByteAt(cx, o + 3), ByteAt(cx, o + 4)>>
-WGarb(w) == \E i \in 1..4 : w[i] = -2
-WAbs(w)  == \E i \in 1..4 : w[i] = -1 \/ w[i] = -3
 Dirty(cx, a, b) == (cx.af.g1 <= b /\ a <= cx.af.g2) \/ (a <= cx.af.f /\ cx.af.f <= b)
 
+WordBytes(cx, cu, o) == <<ByteFrom(cx, cu, o + 1), ByteFrom(cx, cu, o + 2), ByteFrom(cx, cu, o + 3), ByteFrom(cx, cu, o + 4)>>
+WordC(cx, cu, o, c) ==         \* fast path: an untouched whole header / padding word
+  IF ~Dirty(cx, o + 1, o + 4) /\ c[3] % 4 = 0 /\ c[3] + 4 <= c[4] /\ c[1] \in {"len", "seq", "type", "pad"}
+  THEN OrigWord(cx, c) ELSE WordBytes(cx, cu, o)
+WordFrom(cx, cu, o) == WordC(cx, cu, o, CellFrom(cx.out, cu, o + 1))
+WGarb(w) == w[1] = -2 \/ w[2] = -2 \/ w[3] = -2 \/ w[4] = -2
+WAbs(w)  == w[1] = -1 \/ w[1] = -3 \/ w[2] = -1 \/ w[2] = -3 \/ w[3] = -1 \/ w[3] = -3 \/ w[4] = -1 \/ w[4] = -3
+
 (* padding skip of readPacketHeaderUnlockedImpl; i = padding words skipped so far *)
-RECURSIVE SkipPad(_, _, _)
-SkipPad(cx, o, i) ==
+RECURSIVE SkipPad(_, _, _, _)
+SkipPad(cx, cu, o, i) ==
   IF i >= MaxPadWords THEN [err |-> "pad", o |-> o]
   ELSE IF o = cx.n THEN [err |-> "eof", o |-> o]           \* FIN on a packet boundary
   ELSE IF o + 4 > cx.n THEN [err |-> "ueof", o |-> o]
-  ELSE IF WordAt(cx, o) = PadWord THEN SkipPad(cx, o + 4, i + 1)
+  ELSE IF WordFrom(cx, cu, o) = PadWord THEN SkipPad(cx, cu, o + 4, i + 1)
   ELSE [err |-> "", o |-> o]
 
-HErr(e, need, eof) == [err |-> e, need |-> need, eof |-> eof, o |-> 0, len |-> 0, tp |-> <<>>]
+FirstHeader(cx, r) ==          \* first packet: no padding, 12 bytes at once
+  IF r.pos = cx.n THEN [err |-> "eof", o |-> r.pos]
+  ELSE IF r.pos + 12 > cx.n THEN [err |-> "ueof", o |-> r.pos]
+  ELSE [err |-> "", o |-> r.pos]
 
-Header(cx, r) ==
-  LET sp == IF r.seq = StartSeq       \* first packet: no padding, 12 bytes at once
-            THEN (IF r.pos = cx.n THEN [err |-> "eof", o |-> r.pos]
-                  ELSE IF r.pos + 12 > cx.n THEN [err |-> "ueof", o |-> r.pos]
-                  ELSE [err |-> "", o |-> r.pos])
-            ELSE SkipPad(cx, r.pos, 0)
-  IN
+HErr(e, need, eof) == [err |-> e, need |-> need, eof |-> eof, o |-> 0, len |-> 0, tp |-> <<>>, cu |-> <<1, 0>>]
+
+HeaderLen(cx, r, o, cu, lw, sw, tw, len) ==      \* the checks, in the order of the code
+  IF WAbs(lw) THEN HErr("unknown", o + 12, FALSE)                       \* framing lost on opaque bytes
+  ELSE IF len < Overhead \/ len > MaxPacketLen THEN HErr("size", o + 12, FALSE)
+  ELSE IF r.ver = 0 /\ len % 4 # 0 THEN HErr("size4", o + 12, FALSE)
+  ELSE IF WAbs(sw) \/ WAbs(tw) THEN HErr("unknown", o + 12, FALSE)
+  ELSE IF r.seq = StartSeq /\ tw # NonceType THEN HErr("nonce_type", o + 12, FALSE)
+  ELSE IF r.seq = StartSeq + 1 /\ tw # HsType THEN HErr("hs_type", o + 12, FALSE)
+  ELSE IF r.seq < 0 /\ len > MaxHsLen THEN HErr("size", o + 12, FALSE)
+  ELSE IF sw # SeqBytes(r.seq) THEN HErr("seq", o + 12, FALSE)
+  ELSE [err |-> "", need |-> o + 12, eof |-> FALSE, o |-> o, len |-> len, tp |-> tw, cu |-> cu]
+HeaderWords(cx, r, o, cu, lw, sw, tw) ==
+  HeaderLen(cx, r, o, cu, lw, sw, tw, IF WGarb(lw) THEN TooBig ELSE IF WAbs(lw) THEN -1 ELSE LenOf(lw))  \* garbled: high byte # 0
+HeaderAt(cx, r, o, cu) ==
+  HeaderWords(cx, r, o, cu, WordFrom(cx, cu, o), WordFrom(cx, cu, o + 4), WordFrom(cx, cu, o + 8))
+HeaderSp(cx, r, sp) ==
   IF sp.err = "pad" THEN HErr("pad", sp.o, FALSE)
   ELSE IF sp.err # "" THEN HErr(sp.err, cx.n, TRUE)
   ELSE IF sp.o + 12 > cx.n THEN HErr("ueof", cx.n, TRUE)
-  ELSE
-    LET o  == sp.o
-        lw == WordAt(cx, o)
-        sw == WordAt(cx, o + 4)
-        tw == WordAt(cx, o + 8)
-        len == IF WGarb(lw) THEN TooBig ELSE LenOf(lw)     \* garbled: high byte # 0
-        e  == o + 12
-    IN
-    IF WAbs(lw) THEN HErr("unknown", e, FALSE)                           \* framing lost on opaque bytes
-    ELSE IF len < Overhead \/ len > MaxPacketLen THEN HErr("size", e, FALSE)
-    ELSE IF r.ver = 0 /\ len % 4 # 0 THEN HErr("size4", e, FALSE)
-    ELSE IF WAbs(sw) \/ WAbs(tw) THEN HErr("unknown", e, FALSE)
-    ELSE IF r.seq = StartSeq /\ tw # NonceType THEN HErr("nonce_type", e, FALSE)
-    ELSE IF r.seq = StartSeq + 1 /\ tw # HsType THEN HErr("hs_type", e, FALSE)
-    ELSE IF r.seq < 0 /\ len > MaxHsLen THEN HErr("size", e, FALSE)
-    ELSE IF sw # SeqBytes(r.seq) THEN HErr("seq", e, FALSE)
-    ELSE [err |-> "", need |-> e, eof |-> FALSE, o |-> o, len |-> len, tp |-> tw]
+  ELSE HeaderAt(cx, r, sp.o, Seek(cx.out, r.sj, r.sb, sp.o + 1))
+Header(cx, r) ==
+  HeaderSp(cx, r, IF r.seq = StartSeq THEN FirstHeader(cx, r) ELSE SkipPad(cx, <<r.sj, r.sb>>, r.pos, 0))
 
 (* ReadPacketBodyUnlocked: body, CRC and alignment in one read *)
-Body(cx, r, h) ==
-  LET bs == h.len - Overhead
-      al == IF r.enc THEN AlignOf(h.len) ELSE 0
-      e  == h.o + 12
-      fin == e + bs + 4 + al
-      ab == [i \in 1..al |-> ByteAt(cx, e + bs + 4 + i)]
-      c  == CellAt(cx, h.o + 1)
-  IN
-  IF fin > cx.n THEN [err |-> "ueof", need |-> cx.n, eof |-> TRUE, k |-> 0, fin |-> fin]
-  ELSE IF \E i \in 1..al : ab[i] = -2 \/ ab[i] > 0 THEN [err |-> "align", need |-> fin, eof |-> FALSE, k |-> 0, fin |-> fin]
-  ELSE IF \E i \in 1..al : ab[i] < 0 THEN [err |-> "unknown", need |-> fin, eof |-> FALSE, k |-> 0, fin |-> fin]
-  ELSE IF c[1] # "len" \/ c[3] # 0 THEN [err |-> "unknown", need |-> fin, eof |-> FALSE, k |-> 0, fin |-> fin]
-  ELSE IF h.len = Overhead + cx.sent[c[2]].len /\ ~Dirty(cx, h.o + 1, e + bs + 4)
-       THEN [err |-> "", need |-> fin, eof |-> FALSE, k |-> c[2], fin |-> fin]     \* ideal checksum matches
-  ELSE [err |-> "crc", need |-> fin, eof |-> FALSE, k |-> 0, fin |-> fin]
+BRes(e, need, eof, k, fin) == [err |-> e, need |-> need, eof |-> eof, k |-> k, fin |-> fin]
+BodyCrc(cx, h, bs, fin, c) ==
+  IF c[1] # "len" \/ c[3] # 0 THEN BRes("unknown", fin, FALSE, 0, fin)
+  ELSE IF h.len = Overhead + cx.sent[c[2]].len /\ ~Dirty(cx, h.o + 1, h.o + 12 + bs + 4)
+       THEN BRes("", fin, FALSE, c[2], fin)                     \* the ideal checksum matches
+  ELSE BRes("crc", fin, FALSE, 0, fin)
+BodyAlign(cx, h, bs, al, fin, ab) ==
+  IF \E i \in 1..al : ab[i] = -2 \/ ab[i] > 0 THEN BRes("align", fin, FALSE, 0, fin)
+  ELSE IF \E i \in 1..al : ab[i] < 0 THEN BRes("unknown", fin, FALSE, 0, fin)
+  ELSE BodyCrc(cx, h, bs, fin, CellFrom(cx.out, h.cu, h.o + 1))
+BodyFin(cx, h, bs, al, fin) ==
+  IF fin > cx.n THEN BRes("ueof", cx.n, TRUE, 0, fin)
+  ELSE BodyAlign(cx, h, bs, al, fin, [i \in 1..al |-> ByteFrom(cx, h.cu, h.o + 12 + bs + 4 + i)])
+BodyAl(cx, h, bs, al) == BodyFin(cx, h, bs, al, h.o + 12 + bs + 4 + al)
+Body(cx, r, h) == BodyAl(cx, h, h.len - Overhead, IF r.enc THEN AlignOf(h.len) ELSE 0)
 
 RErr(r, e, need, eof, pongs) ==
   [r |-> r, res |-> [k |-> "err", e |-> e, i |-> 0, need |-> need, eof |-> eof], pongs |-> pongs]
+Adv(r, fin, cu) == [r EXCEPT !.pos = fin, !.sj = cu[1], !.sb = cu[2]]
+Advance(cx, r, h, fin) == Adv(r, fin, Seek(cx.out, h.cu[1], h.cu[2], fin + 1))
 
 (* one ReadPacket call: built-in pings are answered and skipped *)
 RECURSIVE RP(_, _, _)
-RP(cx, r, pongs) ==
-  LET h == Header(cx, r) IN
+RPBody(cx, r1, pongs, h, b) ==
+  IF b.err # "" THEN RErr(r1, b.err, b.need, b.eof, pongs)
+  ELSE IF h.tp = PingType THEN RP(cx, Advance(cx, r1, h, b.fin), Append(pongs, b.k))
+  ELSE IF h.tp = PongType THEN RErr(r1, "pong", b.need, FALSE, pongs)     \* no ping was sent
+  ELSE [r |-> Advance(cx, r1, h, b.fin),
+        res |-> [k |-> "pkt", e |-> "", i |-> b.k, need |-> b.need, eof |-> FALSE],
+        pongs |-> pongs]
+RPHeader(cx, r, r1, pongs, h) ==
   IF h.err # "" THEN RErr(r, h.err, h.need, h.eof, pongs)
-  ELSE
-    LET r1 == [r EXCEPT !.seq = @ + 1] IN
-    IF h.tp = PingType /\ h.len # Overhead + PingBody THEN RErr(r1, "pinglen", h.need, FALSE, pongs)
-    ELSE IF h.tp = PongType /\ h.len # Overhead + PingBody THEN RErr(r1, "ponglen", h.need, FALSE, pongs)
-    ELSE
-      LET b == Body(cx, r1, h) IN
-      IF b.err # "" THEN RErr(r1, b.err, b.need, b.eof, pongs)
-      ELSE IF h.tp = PingType THEN RP(cx, [r1 EXCEPT !.pos = b.fin], Append(pongs, b.k))
-      ELSE IF h.tp = PongType THEN RErr(r1, "pong", b.need, FALSE, pongs)     \* no ping was sent
-      ELSE [r |-> [r1 EXCEPT !.pos = b.fin],
-            res |-> [k |-> "pkt", e |-> "", i |-> b.k, need |-> b.need, eof |-> FALSE],
-            pongs |-> pongs]
+  ELSE IF h.tp = PingType /\ h.len # Overhead + PingBody THEN RErr(r1, "pinglen", h.need, FALSE, pongs)
+  ELSE IF h.tp = PongType /\ h.len # Overhead + PingBody THEN RErr(r1, "ponglen", h.need, FALSE, pongs)
+  ELSE RPBody(cx, r1, pongs, h, Body(cx, r1, h))
+RP(cx, r, pongs) == RPHeader(cx, r, [r EXCEPT !.seq = @ + 1], pongs, Header(cx, r))
 
 (* all ReadPacket calls until the reader gives up: <<results, pongs>> *)
 RECURSIVE RunFrom(_, _, _, _)
-RunFrom(cx, r, acc, pongs) ==
-  LET s == RP(cx, r, pongs) IN
+RunStep(cx, acc, s) ==
   IF s.res.k = "err" THEN <<Append(acc, s.res), s.pongs>>
   ELSE RunFrom(cx, s.r, Append(acc, s.res), s.pongs)
+RunFrom(cx, r, acc, pongs) == RunStep(cx, acc, RP(cx, r, pongs))
 
-R0 == [pos |-> 0, seq |-> StartSeq, ver |-> 0, enc |-> FALSE]
+R0 == [pos |-> 0, seq |-> StartSeq, ver |-> 0, enc |-> FALSE, sj |-> 1, sb |-> 0]
+
+NoCorr == [pos |-> 0, mask |-> 0]
+Cx(w, s, cr) == [out |-> w.out, n |-> w.n, sent |-> s, af |-> Affected(w, cr)]
 
 (* the reader after its half of the handshake (it has consumed both packets) *)
+RNego(r, enc, ver) == [r EXCEPT !.ver = ver, !.enc = enc]
 RAfterHandshake(enc, ver) ==
-  LET w1 == WNonce(ver)
-      s1 == RP([out |-> w1.out, n |-> w1.n, sent |-> SentHs(ver), af |-> Affected(w1, [pos |-> 0, mask |-> 0])], R0, <<>>)
-      rn == [s1.r EXCEPT !.ver = ver, !.enc = enc]
-      w3 == WAfterHandshake(enc, ver)
-      s2 == RP([out |-> w3.out, n |-> w3.n, sent |-> SentHs(ver), af |-> Affected(w3, [pos |-> 0, mask |-> 0])], rn, <<>>)
-  IN s2.r
+  RP(Cx(WAfterHandshake(enc, ver), SentHs(ver), NoCorr),
+     RNego(RP(Cx(WNonce(ver), SentHs(ver), NoCorr), R0, <<>>).r, enc, ver), <<>>).r
 
 ---------------------------------------------------------------------------
 (* State machine.  phase: "nonce" (A has to write its nonce packet),       *)
@@ -258,8 +301,9 @@ VARIABLES phase, cfg, aw, bw, sent, wres, chn, rd, log, pongs
 
 vars == <<phase, cfg, aw, bw, sent, wres, chn, rd, log, pongs>>
 
-NoCorr == [pos |-> 0, mask |-> 0]
-Cx(w, s, cr) == [out |-> w.out, n |-> w.n, sent |-> s, af |-> Affected(w, cr)]
+RECURSIVE WritePongs(_, _)
+WritePongs(w, ps) ==            \* WritePacketBuiltin: one flushed pong per answered ping
+  IF ps = <<>> THEN w ELSE WritePongs(DoFlush(DoWrite(w, Head(ps), PingBody)), Tail(ps))
 
 Start(enc, ver) ==
   /\ phase = "nonce" /\ aw = W0
@@ -270,14 +314,13 @@ Start(enc, ver) ==
   /\ UNCHANGED <<bw, wres, chn, rd, log, pongs>>
 
 ReadStep ==      \* one ReadPacket call of B
-  LET s == RP(Cx(aw, sent, chn.corr), rd, <<>>) IN
+  \E s \in {RP(Cx(aw, sent, chn.corr), rd, <<>>)} :
+  \E cn \in {CNeed(aw, s.res.need)} :
   /\ rd' = s.r
-  /\ log' = Append(log, [s.res EXCEPT !.need = CNeed(aw, s.res.need)] @@ [cend |-> CEnd(chn.cuts, CNeed(aw, s.res.need), aw.n)])
+  /\ log' = Append(log, [k |-> s.res.k, e |-> s.res.e, i |-> s.res.i, eof |-> s.res.eof,
+                          need |-> cn, cend |-> CEnd(chn.cuts, cn, aw.n)])
   /\ pongs' = pongs \o s.pongs
-  /\ bw' = LET RECURSIVE WP(_, _)
-               WP(w, ps) == IF ps = <<>> THEN w
-                            ELSE WP(DoFlush(DoWrite(w, Head(ps), PingBody)), Tail(ps))   \* WritePacketBuiltin
-           IN WP(bw, s.pongs)
+  /\ bw' = WritePongs(bw, s.pongs)
   /\ phase' = IF phase = "rdnonce" THEN (IF s.res.k = "pkt" THEN "nego" ELSE "done")
               ELSE IF phase = "rdhs" THEN (IF s.res.k = "pkt" THEN "open" ELSE "done")
               ELSE IF s.res.k = "err" THEN "done" ELSE "read"
@@ -290,7 +333,7 @@ RdHandshake ==
 Negotiate ==     \* both ends switch to the negotiated version / encryption
   /\ phase = "nego"
   /\ aw' = WNegotiated(aw, cfg.enc, cfg.ver)
-  /\ rd' = [rd EXCEPT !.ver = cfg.ver, !.enc = cfg.enc]
+  /\ rd' = RNego(rd, cfg.enc, cfg.ver)
   /\ phase' = "hs"
   /\ UNCHANGED <<cfg, bw, sent, wres, chn, log, pongs>>
 
@@ -331,10 +374,22 @@ Read ==
   /\ ReadStep
   /\ UNCHANGED <<cfg, aw, sent, wres, chn>>
 
+(* the whole handshake of a fresh connection as one step (closed forms, see HandshakeClosedForm);
+   used by trace validation, where it also separates concatenated traces *)
+Restart(enc, ver) ==
+  /\ cfg' = [enc |-> enc, ver |-> ver]
+  /\ aw' = WAfterHandshake(enc, ver)
+  /\ bw' = [WAfterHandshake(enc, ver) EXCEPT !.out = <<>>]
+  /\ sent' = SentHs(ver)
+  /\ rd' = RAfterHandshake(enc, ver)
+  /\ wres' = <<>> /\ log' = <<>> /\ pongs' = <<>>
+  /\ chn' = [cuts |-> NoCuts, corr |-> NoCorr]
+  /\ phase' = "open"
+
 InitState ==
   /\ phase = "nonce" /\ cfg = [enc |-> FALSE, ver |-> 0]
   /\ aw = W0 /\ bw = W0 /\ sent = <<>> /\ wres = <<>>
-  /\ chn = [cuts |-> {}, corr |-> NoCorr]
+  /\ chn = [cuts |-> NoCuts, corr |-> NoCorr]
   /\ rd = R0 /\ log = <<>> /\ pongs = <<>>
 
 ---------------------------------------------------------------------------
